@@ -50,6 +50,10 @@ type CStep struct {
 	Array bool         `json:"array,omitempty"`
 	Raw   engine.Bytes `json:"raw,omitempty"`
 	Burst bool         `json:"burst,omitempty"`
+	// BadParams: the operation is given parameters the client must refuse
+	// ("chan": cannot be marshalled; "scalar": not an array or object) - it fails
+	// at once, transmits nothing and leaves the client usable.
+	BadParams string `json:"bad_params,omitempty"`
 }
 
 func (s CStep) String() string {
@@ -59,7 +63,7 @@ func (s CStep) String() string {
 	}
 	switch s.Op {
 	case "call", "callresult", "notify":
-		return fmt.Sprintf("%s%s #%d ctx=%s d=%d", b, s.Op, s.K, s.Ctx, s.D)
+		return fmt.Sprintf("%s%s #%d ctx=%s d=%d %s", b, s.Op, s.K, s.Ctx, s.D, s.BadParams)
 	case "batch":
 		return fmt.Sprintf("%sbatch #%d specs(notify)=%v ctx=%s d=%d", b, s.K, s.Specs, s.Ctx, s.D)
 	case "reply":
@@ -200,6 +204,16 @@ func (w *cworld) noteRequest(rec []byte) {
 	}
 }
 
+func badParams(kind string, good any) any {
+	switch kind {
+	case "chan":
+		return make(chan int)
+	case "scalar":
+		return 5
+	}
+	return good
+}
+
 func (w *cworld) idOf(op, i int) string {
 	w.mu.Lock()
 	defer w.mu.Unlock()
@@ -265,7 +279,8 @@ func (w *cworld) exec(i int, st CStep) {
 		go func() {
 			defer w.ops.Done()
 			defer cancel()
-			params := map[string]int{"op": st.K, "i": 0}
+			var params any = map[string]int{"op": st.K, "i": 0}
+			params = badParams(st.BadParams, params)
 			if st.Op == "callresult" {
 				var out json.RawMessage
 				err := w.cli.CallResult(ctx, "m", params, &out)
@@ -291,7 +306,7 @@ func (w *cworld) exec(i int, st CStep) {
 		go func() {
 			defer w.ops.Done()
 			defer cancel()
-			err := w.cli.Notify(ctx, "n", map[string]int{"op": st.K, "i": 0})
+			err := w.cli.Notify(ctx, "n", badParams(st.BadParams, map[string]int{"op": st.K, "i": 0}))
 			class, code, data := classify(err)
 			w.log(CEvent{Kind: "op-ret", K: st.K, Class: class, Code: code, Data: data})
 		}()
@@ -305,6 +320,10 @@ func (w *cworld) exec(i int, st CStep) {
 			var specs []jrpc2.Spec
 			for j, note := range st.Specs {
 				specs = append(specs, jrpc2.Spec{Method: "m", Params: map[string]int{"op": st.K, "i": j}, Notify: note})
+			}
+			if st.BadParams != "" && len(specs) > 0 {
+				j := len(specs) / 2
+				specs[j].Params = badParams(st.BadParams, specs[j].Params)
 			}
 			rsps, err := w.cli.Batch(ctx, specs)
 			class, code, data := classify(err)
@@ -487,6 +506,8 @@ func RunClient(t *testing.T, sc CScenario) (h *CHistory) {
 					return make(chan int), nil // cannot be marshalled
 				case num%8 == 5:
 					return nil, jrpc2.Errorf(7, "callback error %s", id)
+				case num%8 == 3:
+					panic("callback handler panics " + id) // the client must turn it into an error reply
 				}
 				return map[string]string{"cb": id}, nil
 			},
@@ -523,6 +544,7 @@ func RunClient(t *testing.T, sc CScenario) (h *CHistory) {
 		w.mu.Lock()
 		w.step = len(sc.Steps)
 		w.mu.Unlock()
+		w.log(CEvent{Kind: "isstopped", Class: "before-epilogue", Data: fmt.Sprint(w.cli.IsStopped())})
 		w.log(CEvent{Kind: "epilogue"})
 		close(w.drain)
 		w.settle()
@@ -543,6 +565,7 @@ func RunClient(t *testing.T, sc CScenario) (h *CHistory) {
 		}
 		w.mu.Unlock()
 		w.settle()
+		w.log(CEvent{Kind: "isstopped", Class: "at-end", Data: fmt.Sprint(w.cli.IsStopped())})
 	})
 	return h
 }
